@@ -261,6 +261,14 @@ func (p *provider) updateRuleSet(oldObj, newObj any) {
 	newRS := newObj.(*v1alpha4.RuleSet) // nolint: forcetypeassert
 	oldRS := oldObj.(*v1alpha4.RuleSet) // nolint: forcetypeassert
 
+	if oldRS.UID != newRS.UID {
+		// deleted and re-created under the same name while the watch was interrupted
+		p.deleteRuleSet(oldRS)
+		p.addRuleSet(newRS)
+
+		return
+	}
+
 	if oldRS.Generation == newRS.Generation {
 		// we're only interested in Spec updates. Changes in metadata or status are not of relevance
 		return
